@@ -302,7 +302,7 @@ pub fn check(case: &Case, env: &mut CaseEnv) -> Result<(), Failure> {
 }
 
 pub fn shard(ctx: &mut Ctx) {
-    let (tables, max_rows, nq) = ctx.tier.pick((1200, 50, 10), (30000, 300, 20));
+    let (tables, max_rows, nq) = ctx.tier.pick((4000, 50, 10), (40000, 300, 20));
     let n = ctx.share(tables);
     ctx.drive("order", case_strategy(max_rows, nq), n, check);
 }
